@@ -278,11 +278,21 @@ impl IndentationVisitor {
         }
 
         let between = &self.src[left_end..expr_start];
+
+        // Leave comments alone. A `/` between the destination and the
+        // value can only be the start of a comment, and the first `=`
+        // might be inside it.
+        if between.contains('/') {
+            return;
+        }
+
         if let Some(eq_offset) = between.find('=') {
             let eq_abs = left_end + eq_offset;
 
+            // Preserve line breaks: the indentation edits are computed
+            // from the line numbers of the unedited source.
             let before_eq = &self.src[left_end..eq_abs];
-            if before_eq != " " {
+            if before_eq != " " && !before_eq.contains('\n') {
                 self.span_edits.push(SpanEdit {
                     start_offset: left_end,
                     end_offset: eq_abs,
@@ -313,6 +323,11 @@ impl IndentationVisitor {
                 if let Some(last) = syms.last() {
                     let after_last = last.position.end_offset;
                     match self.src[after_last..].find(')') {
+                        // A comment before the closing paren might
+                        // contain a `)` of its own.
+                        Some(offset) if self.src[after_last..after_last + offset].contains('/') => {
+                            return
+                        }
                         Some(offset) => after_last + offset + 1,
                         None => return,
                     }
